@@ -83,13 +83,13 @@ theorem idx_split {cs : List α} {s : Key} (hs : s ∈ ks kt cs) :
   simp [hk] at this
 
 /-- with unique keys the key is nowhere else -/
-theorem idx_split_nodup {cs : List α} {s : Key} (hu : (ks kt cs).Nodup) (hs : s ∈ ks kt cs) :
+theorem idx_split_nodup {cs : List α} {s : Key} (hu : SomeNodup (ks kt cs)) (hs : s ∈ ks kt cs)
+    (hsm : s.isSome = true) :
     ∃ a x b, cs = a ++ x :: b ∧ a.length = idx kt cs s ∧ kt x = some s ∧ s ∉ ks kt a ∧ s ∉ ks kt b := by
   obtain ⟨a, x, b, h1, h2, h3, h4⟩ := idx_split kt hs
   refine ⟨a, x, b, h1, h2, h3, h4, ?_⟩
   rw [h1, ks_append, ks_cons_some kt h3] at hu
-  have := (List.nodup_append.mp hu).2.1
-  exact (List.nodup_cons.mp this).1
+  exact hu.append_right.not_mem hsm
 
 /-- non-keyed elements -/
 def nk (cs : List α) : List α := cs.filter (fun c => (kt c).isNone)
